@@ -666,6 +666,8 @@ encode_one_block(working_state *state, JCOEFPTR block, int last_dc_val,
     /* if run length > 15, must emit special run-length-16 codes (0xF0) */ \
     while (r >= 16 * 16) { \
       r -= 16 * 16; \
+      if (actbl->ehufsi[0xf0] == 0) \
+        ERREXIT(state->cinfo, JERR_HUFF_MISSING_CODE); \
       PUT_BITS(actbl->ehufco[0xf0], actbl->ehufsi[0xf0]) \
     } \
     /* Emit Huffman symbol for run length / number of bits */ \
@@ -690,6 +692,8 @@ encode_one_block(working_state *state, JCOEFPTR block, int last_dc_val,
 
     /* If the last coef(s) were zero, emit an end-of-block code */
     if (r > 0) {
+      if (actbl->ehufsi[0] == 0)
+        ERREXIT(state->cinfo, JERR_HUFF_MISSING_CODE);
       PUT_BITS(actbl->ehufco[0], actbl->ehufsi[0])
     }
   }
